@@ -251,4 +251,5 @@ def obligations(tier):
         obs.append(CH('W_slots_product', MOD, 'w_main', timeout=3000, partitions=list(range(16)), twin=False, engine='W',
                       regime='selector', encodes=K.EMPTY_FUNCS, stubs=K.STUBS,
                       bounds='5 DAYS x 16^3 date slots over 3 trash dirs x 3 clock sources x 2 kinds'))
-    return obs
+    from harness import kpair
+    return kpair.obligations(tier) + obs
